@@ -6,6 +6,7 @@ sequence as exactly that token sequence.
 -/
 import ZygoVerif.Proofs.LexSpacing
 import ZygoVerif.Proofs.LexSpacingNames
+import ZygoVerif.Model.SpacingTok
 namespace ZygoVerif.Lexer
 open ZygoVerif.Spacing (Tok)
 open ZygoVerif.Spacing.Tok (dotted)
@@ -71,18 +72,6 @@ def opPieceOK : Piece → Bool
 
 theorem opPieceOK_ok (p : Piece) (h : opPieceOK p = true) : p.OK := by
   cases p <;> simp_all [opPieceOK, Piece.OK]
-
-/-- the lexer token a specification token stands for -/
-def expTok : Tok → Token
-  | .name lead segs => if !lead && segs.length == 1 then ⟨.symbol, Tok.text (.name lead segs)⟩ else ⟨.dotSymbol, Tok.text (.name lead segs)⟩
-  | .num neg ip fp ex => if fp.isNone && ex.isNone then ⟨.decimal, Tok.text (.num neg ip fp ex)⟩ else ⟨.float, Tok.text (.num neg ip fp ex)⟩
-  | .op o =>
-    if o == ":=".toList then ⟨.freshAssign, o⟩
-    else if o == "&&".toList then ⟨.symbol, "and".toList⟩
-    else if o == "||".toList then ⟨.symbol, "or".toList⟩
-    else ⟨.symbol, o⟩
-  | .punct c =>
-    if c == ',' then ⟨.comma, [',']⟩ else if c == ';' then ⟨.semicolon, [';']⟩ else braceTok c
 
 theorem opTexts_facts : Spacing.opTexts.all (fun o => opPieceOK (opPiece o) && ((opPiece o).text == o)) = true := by decide
 
